@@ -368,3 +368,18 @@ func TestVerifWitness_C17_tag_token_in_its_own_part(t *testing.T) {
 	}
 	fmt.Println("WITNESS-HOLDS")
 }
+
+// C17 server.tokenizeForSemantics#witness: a payee token lies on a header line. A header without description left the
+// "next text is the payee" flag set, and the first text token further down (a commodity written as a word, the text of a
+// directive) was typed payee.
+func TestVerifWitness_C17_payee_only_on_header_lines(t *testing.T) {
+	for _, content := range []string{"2024-01-01\n    assets:cash  5 hours\n    expenses:x\n", "2024-01-01 * (1)\n    assets:cash  5 USD\n\naccount foo bar\n"} {
+		for _, tk := range tokenizeForSemantics(content) {
+			if tk.tokenType == TokenTypePayee && tk.line != 0 {
+				fmt.Printf("WITNESS-FAILS %q: a payee token on line %d (column %d, length %d), which is not a transaction header\n", content, tk.line, tk.col, tk.length)
+				return
+			}
+		}
+	}
+	fmt.Println("WITNESS-HOLDS")
+}
